@@ -519,6 +519,46 @@ func ruleC06Print(c *Checker) {
 				missing = append(missing, "separator "+k)
 			}
 		}
+		if s.typ == "RemoteSource" {
+			if pf := p.Fn(addrPkg, "RemotePackage.String"); pf != nil {
+				isFld := func(v ssa.Value, name string) bool {
+					for w := range p.backSlice(v, 0) {
+						switch x := w.(type) {
+						case *ssa.Field:
+							if fieldOf(x) != nil && fieldOf(x).Name() == name {
+								return true
+							}
+						case *ssa.FieldAddr:
+							if fieldOf(x) != nil && fieldOf(x).Name() == name {
+								return true
+							}
+						}
+					}
+					return false
+				}
+				eqT, _ := condEdges(pf, func(v ssa.Value) bool {
+					bo, ok := v.(*ssa.BinOp)
+					return ok && bo.Op == token.EQL && ((isFld(bo.X, "Scheme") && isFld(bo.Y, "sourceType")) || (isFld(bo.Y, "Scheme") && isFld(bo.X, "sourceType")))
+				})
+				_, neF := condEdges(pf, func(v ssa.Value) bool {
+					bo, ok := v.(*ssa.BinOp)
+					return ok && bo.Op == token.NEQ && ((isFld(bo.X, "Scheme") && isFld(bo.Y, "sourceType")) || (isFld(bo.Y, "Scheme") && isFld(bo.X, "sourceType")))
+				})
+				same := append(eqT, neF...)
+				for i, r := range returnsOf(pf) {
+					hasType := false
+					for w := range p.backSlice(r.Results[0], 0) {
+						if k, ok := constString(w); ok && k == "::" {
+							hasType = true
+						}
+					}
+					if hasType {
+						continue
+					}
+					c.check(len(same) > 0 && guarded(r.Block(), same), R, p.FuncName(pf), fmt.Sprintf("return %d without the type prefix only when scheme and type are equal", i), p.Pos(r.Pos()), "past url.Scheme == sourceType", "the 'type::' prefix is left out on a path where the URL scheme may differ from the source type (a prefix or case-insensitive test instead of equality): http::https://… prints as https://…, which parses back with another source type — two unequal packages print the same")
+				}
+			}
+		}
 		c.check(len(missing) == 0, R, p.FuncName(fn), "prints all identifying parts", p.Pos(fn.Pos()), "all identifying fields and separators are used", "String() no longer uses "+strings.Join(missing, ", ")+": distinct addresses would print the same / not parse back")
 		// per return: the "//sub-path" form exactly when the sub-path is not empty; every constant
 		// separator of the type on every return that has no "//" exemption
@@ -977,6 +1017,18 @@ func ruleC07Query(c *Checker) {
 		case "http", "https":
 			cs := passEdges("checksum")
 			c.check(len(cs) > 0, R, name, "rejects checksum", p.Pos(fn.Pos()), "a rejecting test on the 'checksum' argument exists", "the archive implementation no longer rejects a 'checksum' argument")
+			// ... decided on the PRESENCE of the argument (an index of the parsed query, its length, comma-ok, or
+			// Has), not on its first value: checksum= and a bare checksum are arguments too
+			presence := true
+			for _, e := range cs {
+				ifi := e.From.Instrs[len(e.From.Instrs)-1].(*ssa.If)
+				for w := range p.backSlice(ifi.Cond, 0) {
+					if cl, ok := w.(*ssa.Call); ok && calleeObj(cl) != nil && calleeObj(cl).Name() == "Get" && objPkgPath(calleeObj(cl)) == "net/url" {
+						presence = false
+					}
+				}
+			}
+			c.check(presence, R, name, "checksum rejected by presence", p.Pos(fn.Pos()), "the test looks at whether the key is there", "the 'checksum' rejection looks at the argument's first value (url.Values.Get) instead of its presence: ?checksum= , a bare ?checksum, or an empty pair in front of a real one is accepted and kept in the package address")
 			arch := append(passEdges("tar.gz", "tgz"), passEdges(".tar.gz", ".tgz")...)
 			// passing edges of the suffix tests are the HasSuffix true edges
 			sufT, _ := condEdges(fn, func(v ssa.Value) bool {
@@ -1292,6 +1344,50 @@ func ruleC11LocalForm(c *Checker) {
 				c.check(okv, R, name, fmt.Sprintf("joined path %q is handed to the parser as %q", k, k+"/"), p.Pos(ci.Pos()), "by partial evaluation with the joined path fixed to "+strconv.Quote(k), "with the joined path equal to "+strconv.Quote(k)+" the parser is handed "+shown+", not "+strconv.Quote(k+"/")+" — the only spelling of it the parser accepts: a resolution whose result is that path (./a + ../, ./ + ../) fails with a canonical-form error")
 			}
 		}
+		// ... and for a sample of joined-path shapes (a name, a dot-name, climbing paths) what is handed to the
+		// parser is something the parser accepts: the parser is evaluated on that constant in turn
+		for _, ci := range callsIn(fn) {
+			if ci.Common().StaticCallee() != parser {
+				continue
+			}
+			arg := ci.Common().Args[0]
+			var join *ssa.Call
+			for w := range p.backSlice(arg, 0) {
+				if cl, ok := w.(*ssa.Call); ok && isFunc(calleeObj(cl), "path", "Join") {
+					join = cl
+				}
+			}
+			if join == nil {
+				continue
+			}
+			for _, k := range []string{"a", "a/b", ".a", "..a", ".a/b", "../a", "../..", "../../a", "../.a"} {
+				ev := p.newEvaluator(func(f *ssa.Function, v ssa.Value) (absVal, bool) {
+					if f == fn && v == ssa.Value(join) {
+						return absConst(constant.MakeString(k)), true
+					}
+					return absVal{}, false
+				})
+				params := make([]absVal, len(fn.Params))
+				for i := range params {
+					params[i] = absTop
+				}
+				got := ev.evalFunc(fn, params).Eval(arg)
+				if got.isTop() || len(got.vals) != 1 || got.vals[0].Kind() != constant.String {
+					c.fail(R, name, fmt.Sprintf("joined path %q is spelled acceptably", k), p.Pos(ci.Pos()), "with the joined path equal to "+strconv.Quote(k)+" what is handed to the parser is not a single constant the partial evaluator can compute")
+					continue
+				}
+				spelled := constant.StringVal(got.vals[0])
+				pev := p.newEvaluator(nil)
+				pres := pev.evalFunc(parser, []absVal{absConst(constant.MakeString(spelled))})
+				refused := false
+				for r := range pres.RetInst {
+					if len(r.Results) == 2 && !isNilConst(r.Results[1]) {
+						refused = true
+					}
+				}
+				c.check(!refused && len(pres.RetInst) > 0, R, name, fmt.Sprintf("joined path %q is spelled acceptably", k), p.Pos(ci.Pos()), fmt.Sprintf("handed over as %q, which the parser (evaluated on that constant) accepts", spelled), fmt.Sprintf("with the joined path equal to %q the parser is handed %q, which it refuses (evaluated on that constant: an error return is reachable): resolving a relative address whose result is such a path — a directory whose name starts with a dot, a path that climbs — fails instead of yielding the address", k, spelled))
+			}
+		}
 		_ = n
 	}
 }
@@ -1483,6 +1579,9 @@ func ruleC11JoinOrder(c *Checker) {
 		if canon(r.Results[0]) == ssa.Value(real) {
 			c.check(guarded(r.Block(), emptyT), R, name, fmt.Sprintf("return %d of the registry's address unchanged", i), p.Pos(r.Pos()), "only when the requesting source's sub-path is empty", "the registry's address can be returned without the requested sub-path although one was given (e.g. when it 'already ends with' it): the join no longer follows path algebra")
 		}
+	}
+	for i, st := range storesToField(fn, p.FieldVar(addrPkg, "RemoteSource", "subPath")) {
+		c.check(p.backSlice(st.Val, 0)[recv], R, name, fmt.Sprintf("result sub-path %d includes the caller's", i), p.Pos(st.Pos()), "the stored sub-path derives from the requesting source's sub-path", "a result is built whose sub-path does not come from the requesting source at all (the registry answer's own, here empty, sub-path is stored): ns/name/sys//modules/x resolves to the root of the package the registry named — the finder analyses the wrong directory and lookups return the package root")
 	}
 	for _, st := range storesToField(fn, p.FieldVar(addrPkg, "RemoteSource", "pkg")) {
 		c.check(p.backSlice(st.Val, 0)[real] && !p.backSlice(st.Val, 0)[recv], R, name, "result package", p.Pos(st.Pos()), "package of the real address", "the result does not keep the package the registry named")
